@@ -1,0 +1,130 @@
+//go:build verif
+
+package parser
+
+// Contracts for the verification harness in /verif (comment-only file).
+
+// ---------------------------------------------------------------------------------------------
+// Ghost input of the scanner: rest = text not yet read, last = the rune UnreadRune would give back.
+//@ ghost rest string
+//@ ghost last string
+//@ ghost scans int
+
+//@ macro posOK(s *scanner) bool = s != nil && s.pos.Char >= 0 && (forall i int :: 0 <= i && i < len(s.pos.Lines) ==> s.pos.Lines[i] >= 0)
+//@ macro canUnread(s *scanner) bool = s.pos.Char > 0 || len(s.pos.Lines) > 0
+
+// ---- character classes (C12: the alphabet of the language)
+//@ contract isWhitespace
+//@   ensures C12.whitespace: result == (ch == 32 || ch == 9 || ch == 10 || ch == 11 || ch == 13)
+//@   safety C11
+//@   pure
+//@ contract isAlphaNum
+//@   ensures C12.alphabet: result == ((97 <= ch && ch <= 122) || (65 <= ch && ch <= 90) || (48 <= ch && ch <= 57))
+//@   safety C11
+//@   pure
+//@ contract isUnderscore
+//@   ensures C12.underscore: result == (ch == 95)
+//@   safety C11
+//@   pure
+//@ contract isApostrophe
+//@   ensures C12.apostrophe: result == (ch == 39)
+//@   safety C11
+//@   pure
+//@ contract isSpecialSymbol
+//@   ensures C12.special: result == (ch == 61 || ch == 60 || ch == 45 || ch == 49 || ch == 47 || ch == 92)
+//@   safety C11
+//@   pure
+
+// ---- reading and un-reading one rune
+//@ contract (*scanner).read
+//@   requires posOK(s)
+//@   requires[C11] s.r != nil
+//@   ensures C11.readEnd: old(rest) == "" ==> result == 0 && rest == "" && last == "" && s.pos.Char == old(s.pos.Char) && len(s.pos.Lines) == old(len(s.pos.Lines))
+//@   ensures C11.readStep: old(rest) != "" ==> result == code(str_at(old(rest), 0)) && rest == str_sub(old(rest), 1, len(old(rest)) - 1) && last == str_at(old(rest), 0) && canUnread(s)
+//@   ensures C11.readPos: posOK(s)
+//@   safety C11
+
+//@ contract (*scanner).unread
+//@   requires posOK(s)
+//@   requires[C11] s.r != nil && canUnread(s)
+//@   ensures C11.unread: rest == old(last) + old(rest) && last == ""
+//@   ensures C11.unreadPos: posOK(s)
+//@   safety C11
+
+// ---- loops of the scanner: every iteration consumes input (variant: the length of the unread text)
+//@ contract (*scanner).skipWhitespace
+//@   requires posOK(s)
+//@   requires[C11] s.r != nil
+//@   ensures C11.wsConsumes: len(rest) <= old(len(rest)) && posOK(s)
+//@   loop 1 invariant posOK(s) && len(rest) <= old(len(rest))
+//@   loop[C11] 1 decreases len(rest)
+//@   safety C11
+
+//@ contract (*scanner).skipToEOL
+//@   requires posOK(s)
+//@   requires[C11] s.r != nil
+//@   ensures C11.eolConsumes: len(rest) <= old(len(rest)) && posOK(s)
+//@   loop 1 invariant posOK(s) && len(rest) <= old(len(rest))
+//@   loop[C11] 1 decreases len(rest)
+//@   safety C11
+
+//@ contract (*scanner).scanLabel
+//@   requires posOK(s)
+//@   requires[C11] s.r != nil
+//@   ensures C11.labelConsumes: len(rest) <= old(len(rest)) && posOK(s)
+//@   ensures C12.labelToken: result0 != 0
+//@   loop 1 invariant posOK(s) && len(rest) <= old(len(rest))
+//@   loop[C11] 1 decreases len(rest)
+//@   safety C11
+
+// A block comment ends at the first "*/"; an unterminated one ends with the text. (Texts containing the NUL
+// character are excluded here: the scanner cannot tell NUL from the end of the input - known finding F8.)
+//@ macro skipped() int = old(len(rest)) - len(rest)
+//@ contract (*scanner).skipToEndOfComment
+//@   requires posOK(s)
+//@   requires[C11] s.r != nil
+//@   ensures C11.commentConsumes: len(rest) <= old(len(rest)) && posOK(s)
+//@   ensures C12.commentSuffix: rest == str_sub(old(rest), skipped(), len(old(rest)))
+//@   ensures C12.commentEnd: !str_contains(old(rest), chr(0)) ==>
+//@        (rest == "" && !str_contains(old(rest), "*/")) ||
+//@        (skipped() >= 2 && str_sub(old(rest), skipped() - 2, 2) == "*/" && !str_contains(str_sub(old(rest), 0, skipped() - 1), "*/"))
+//@   loop 1 invariant posOK(s) && len(rest) <= old(len(rest)) && rest == str_sub(old(rest), skipped(), len(old(rest)))
+//@   loop 1 invariant prev == ite(skipped() == 0, 0, code(str_at(old(rest), skipped() - 1)))
+//@   loop 1 invariant !str_contains(str_sub(old(rest), 0, skipped()), "*/")
+//@   loop 1 invariant !str_contains(str_sub(old(rest), 0, skipped()), chr(0))
+//@   loop[C11] 1 decreases len(rest)
+//@   safety C11
+
+//@ contract (*scanner).consumeIfComment
+//@   requires posOK(s)
+//@   requires[C11] s.r != nil && canUnread(s)
+//@   ensures C11.ccConsumes: len(rest) <= old(len(rest)) && posOK(s)
+//@   ensures C12.notComment: !result ==> rest == old(rest)
+//@   ensures C11.ccPos: ch != 47 ==> rest == old(rest) && s.pos.Char == old(s.pos.Char) && len(s.pos.Lines) == old(len(s.pos.Lines))
+//@   safety C11
+
+//@ contract (*scanner).scanSpecialSymbol
+//@   requires posOK(s)
+//@   requires ch == 61 || ch == 60 || ch == 45 || ch == 49 || ch == 47 || ch == 92
+//@   requires[C11] s.r != nil && ((ch == 61 || ch == 60 || ch == 45 || ch == 49) ==> canUnread(s))
+//@   ensures C11.specialConsumes: len(rest) <= old(len(rest)) && posOK(s)
+//@   ensures C12.specialToken: result0 == 0 ==> result1 != ""
+//@   safety C11
+
+//@ contract (*scanner).Scan
+//@   requires posOK(s)
+//@   requires[C11] s.r != nil
+//@   ensures C11.scanConsumes: len(rest) <= old(len(rest)) && posOK(s)
+//@   ensures C12.scanEnd: result0 == 0 && result1 == "" ==> rest == "" || last == chr(0)
+//@   decreases[C11] len(rest)
+//@   emits scans = old(scans) + 1
+//@   safety C11
+
+// The end-of-input code is returned only when the text is exhausted, and one call scans one token.
+//@ contract (*lexer).Lex
+//@   requires l != nil && l.scanner != nil && posOK(l.scanner)
+//@   requires[C11] l.scanner.r != nil && yylval != nil
+//@   ensures C12.eof: result == 0 ==> rest == ""
+//@   ensures C12.oneScan: scans == old(scans) + 1
+//@   ensures C11.lexPos: posOK(l.scanner)
+//@   safety C11
